@@ -5,9 +5,11 @@
 //       pointer/bounds checks on the real code), `pos` only advances and stays inside, and the consumed text / the text handed
 //       to atof, ratFromString, NameSet::number/add is what an independent index-based reference scanner (below) says.
 //       LPFhasKeyword: see the two groups of entries (keyword literal / keyword inside a larger object) further down.
-//  (ii) length sweep around the 8192-byte scratch buffers: tokens of CONCRETE length L in {8191, 8192, 8193}: the bounds
-//       check on the real `char tmp/name[SOPLEX_LPF_MAX_LINE_LEN]` stack arrays decides (thorough tier: ~15 min each).
+//  (ii) length sweep around SOPLEX_LPF_MAX_LINE_LEN (8192): tokens of CONCRETE length L in {8191, 8192, 8193}. The functions
+//       used to copy the token into `char tmp/name[SOPLEX_LPF_MAX_LINE_LEN]` stack arrays (overflow from 8192 on, repaired in
+//       479fd7f); now they copy into a std::string of the token's length: every length must be safe (thorough tier).
 // Models (solver build only; the native build runs the real atof / NameSet / ratFromString on real objects):
+//   std::string(first,last), ~string -> exactly sized NUL-terminated heap copy (see string_range below); c_str() is the real one
 //   atof, ratFromString           -> record the text they are given, return a scripted value
 //   NameSet::number/num/add       -> record the name, scripted answers (known / unknown name, current size)
 //   LPColSetBase::add, SPxOut     -> cut
@@ -133,6 +135,40 @@ static bool same_text(const char* rec, const Ref& r, int p, int len)
    }
    return true;
 }
+
+// std::string(first, last) / c_str() / ~string(): the real functions copy the current token into a std::string of the token's
+// length and hand c_str() to atof / ratFromString / NameSet. libstdc++'s out-of-line string members are not translated; the
+// range constructor is modelled (solver build only) as what it is documented to do: a NUL-terminated copy of [first,last) in a
+// heap object of EXACTLY last-first+1 bytes (so a consumer reading behind the terminator is caught), found by the real
+// c_str()/_M_data(). The token length is symbolic in (i): the copy is made by a case split over the concrete lengths 0..LEN
+// (heap objects of symbolic size are intractable); in the sweeps (ii) the length is a constant (g_sweep).
+struct RawString { char* p; size_t len; char buf[16]; };           // libstdc++ (cxx11 ABI) std::string
+static_assert(sizeof(RawString) == sizeof(std::string), "std::string layout");
+static bool g_sweep;
+static char* str_copy(const char* first, size_t n)
+{
+   char* p = (char*)malloc(n + 1);
+   for(size_t i = 0; i < n; ++i) p[i] = first[i];
+   p[n] = '\0';
+   return p;
+}
+static void string_range(std::string* self, const char* first, const char* last)
+{
+   RawString* r = reinterpret_cast<RawString*>(self);
+   vp_assert(first <= last, 80);                                   // a valid range
+   size_t n = (size_t)(last - first);
+   char* p = nullptr;
+   if(g_sweep) p = str_copy(first, n);
+   else
+   {
+      vp_assert(n <= (size_t)LEN, 81);                             // the token lies inside the text
+      for(int L = 0; L <= LEN; ++L) if(n == (size_t)L) p = str_copy(first, (size_t)L);
+   }
+   r->p = p; r->len = n;
+}
+extern "C" void m_string_range_c(std::string* self, const char* first, const char* last, const std::allocator<char>& a) { string_range(self, first, last); }
+extern "C" void m_string_range(std::string* self, char* first, char* last, const std::allocator<char>& a) { string_range(self, first, last); }
+extern "C" void m_string_dtor(std::string* self) { RawString* r = reinterpret_cast<RawString*>(self); free(r->p); r->p = nullptr; }
 
 // objects the functions need: raw zero memory in the solver build (every use is cut/replaced), real objects natively
 union OutMem { SPxOut o; OutMem() {} ~OutMem() {} };
@@ -549,6 +585,7 @@ template <int L> static char* filler(char c, char tail)
 }
 template <int L> static void sweep_value()
 {
+   g_sweep = true;
    char* b = filler<L>('1', ' ');
    g_atof_ret = vp_small(-8, 8);
    g_txt_calls = 0;
@@ -564,6 +601,7 @@ template <int L> static void sweep_value()
 #ifndef VP_NO_RAT
 template <int L> static void sweep_value_rat()
 {
+   g_sweep = true;
    char* b = filler<L>('1', ' ');
    g_txt_calls = 0;
    char* pos = b;
@@ -577,6 +615,7 @@ template <int L> static void sweep_value_rat()
 #endif
 template <int L, class R, class CS> static void sweep_colname()
 {
+   g_sweep = true;
    char* b = filler<L>('a', ' ');
    g_ns_size = 0; g_ns_known = 0; g_ns_number_calls = 0; g_ns_add_calls = 0;
 #ifdef VP_NATIVE
@@ -594,6 +633,7 @@ template <int L, class R, class CS> static void sweep_colname()
 }
 template <int L> static void sweep_rowname()
 {
+   g_sweep = true;
    char* b = filler<L>('a', ':');
    char* pos = b;
    bool h = LPFhasRowName(pos, nullptr);
